@@ -115,8 +115,11 @@ func (w *FindRules) Do(ctx *Context, loc *Location) {
 			eventPattern := rule.When.Pattern
 			bss, err = Matches(ctx, eventPattern, w.Event)
 			if err != nil {
-				w.Disposition = &Condition{err.Error(), "fatal"}
-				return
+				// This rule's pattern can't be matched.  That's
+				// this rule's problem; the other rules still
+				// deserve the event.
+				Log(WARN, ctx, "FindRules.Do", "ruleId", id, "error", err)
+				continue
 			}
 		} else {
 			// Scheduled rule (triggered)
